@@ -673,5 +673,5 @@ def evidence(tier, seed, m, d):
              'writes x final disconnect, framing mode, protocol) + seeded '
              'schedule tape; evaluations = oracle obligations checked; a run '
              'is non-trivial when at least one pre-emption fired; distinct = '
-             '6% reuse one object (session, disconnect, connect again at once, queued writes, disconnect while the previous networking thread may still be winding down); 8% of the seeded scenarios run a second Connection object with its own writers in the same process; 6% contain a burst of 301..650 queued packets followed by the disconnect; distinct run digests (hash of every scheduler step and I/O '
+             '6%% reuse one object (session, disconnect, connect again at once, queued writes, disconnect while the previous networking thread may still be winding down); 8%% of the seeded scenarios run a second Connection object with its own writers in the same process; 6%% contain a burst of 301..650 queued packets followed by the disconnect; distinct run digests (hash of every scheduler step and I/O '
              'event)' % DIRECTED[tier])
